@@ -316,24 +316,88 @@ Proof.
   exists b, b'. repeat split. intro E. apply binding_eqb_eq in E. rewrite E in H. discriminate.
 Qed.
 
-(* rgb.on(red=.., green=.., blue=..) *)
-Definition rgb_on_witness : call_shape := mk_shape 0 [T "red"; T "green"; T "blue"].
+(* ------------------------------------------------------------------ rows that never reject *)
+(* a lookup that cannot answer LReject, an entry that falls back to its default when missing *)
+Definition lookup_total (l : lookup) : bool :=
+  match l with
+  | LKwPos _ _ | LKw _ | LPos _ | LKwPosAfter _ _ _ | LNever => true
+  | LStrict _ _ | LWhole | LSole _ => false
+  end.
 
-Lemma rgb_on_refuted : rgb_on_keyword_fix_landed = false ->
-  exists sh b b', py_bind (sig_of (T "RGBLed.on")) sh = Some b /\ redu_bind (T "RGBLed.on") sh = Bound b'
-                  /\ b' <> restrict (device_params (T "RGBLed.on")) b.
+Definition entry_total (e : entry) : bool := lookup_total (e_look e) && negb (e_required e).
+
+Definition method_total (m : method) : bool :=
+  match tlookup m table with
+  | Some (Row None es) => forallb entry_total es
+  | _ => false
+  end.
+
+Lemma run_lookup_total sh l : lookup_total l = true -> run_lookup sh l <> LReject.
 Proof.
-  intro F. vm_compute in F.
-  first [ discriminate F
-        | exists rgb_on_witness; apply refute_by_compute; vm_compute; reflexivity ].
+  destruct l as [l i|l|i|l g i|k i| |k|]; cbn [lookup_total run_lookup]; intro H; try discriminate H;
+    try (unfold of_opt; match goal with |- context [match ?o with _ => _ end] => destruct o end; discriminate).
+  discriminate.
 Qed.
 
-Lemma rgb_on_fixed : rgb_on_keyword_fix_landed = true ->
-  forall sh b, py_bind (sig_of (T "RGBLed.on")) sh = Some b -> agrees (T "RGBLed.on") sh b.
+Lemma run_entries_total sh es :
+  forallb entry_total es = true -> exists b, run_entries sh es = Bound b.
 Proof.
-  intro F. vm_compute in F.
-  first [ discriminate F
-        | intros sh b; apply bind_agrees_partial; apply tmem_In; vm_compute; reflexivity ].
+  induction es as [|e r IH]; cbn [forallb run_entries]; intro H.
+  - exists []. reflexivity.
+  - apply andb_true_iff in H as [He Hr]. destruct (IH Hr) as [b Hb]. rewrite Hb.
+    unfold entry_total in He. apply andb_true_iff in He as [Hl Hq]. apply negb_true_iff in Hq.
+    pose proof (run_lookup_total sh _ Hl) as NR. rewrite Hq.
+    destruct (run_lookup sh (e_look e)) as [t| |]; [eexists; reflexivity|eexists; reflexivity|congruence].
+Qed.
+
+Lemma method_total_sound m sh : method_total m = true -> exists b, redu_bind m sh = Bound b.
+Proof.
+  unfold method_total, redu_bind. destruct (tlookup m table) as [[[al|] es| |k pr ab]|]; try discriminate.
+  intro H. cbn [run_row]. apply run_entries_total. exact H.
+Qed.
+
+(* ------------------------------------------------------------------ RGBLed.on (repaired row) *)
+(* every call of rgb.on Python accepts is bound - never rejected - to exactly Python's binding *)
+Lemma rgb_on_binds : forall sh b,
+  py_bind (sig_of (T "RGBLed.on")) sh = Some b ->
+  redu_bind (T "RGBLed.on") sh = Bound (restrict (device_params (T "RGBLed.on")) b).
+Proof.
+  intros sh b H.
+  assert (In (T "RGBLed.on") agreeing_methods) as Hin by (apply tmem_In; vm_compute; reflexivity).
+  destruct (bind_agrees_partial _ _ _ Hin H) as [R|B]; [|exact B].
+  assert (method_total (T "RGBLed.on") = true) as Tot by (vm_compute; reflexivity).
+  destruct (method_total_sound _ sh Tot) as [b' Hb']. congruence.
+Qed.
+
+(* the negation of the former refutation, literally *)
+Lemma rgb_on_no_disagreement : forall sh b b',
+  py_bind (sig_of (T "RGBLed.on")) sh = Some b ->
+  redu_bind (T "RGBLed.on") sh = Bound b' ->
+  b' = restrict (device_params (T "RGBLed.on")) b.
+Proof. intros sh b b' H R. rewrite (rgb_on_binds sh b H) in R. congruence. Qed.
+
+(* the three spellings of the property text command the same colour: each parameter receives
+   the argument Python gives it - rgb.on(red=.., green=.., blue=..), rgb.on(r, g, b),
+   rgb.on(r, blue=.., green=..) *)
+Lemma rgb_on_spellings :
+  let m := T "RGBLed.on" in
+  In m agreeing_methods /\
+  redu_bind m (mk_shape 0 [T "red"; T "green"; T "blue"]) =
+    Bound [(T "red", STag (TKw (T "red"))); (T "green", STag (TKw (T "green"))); (T "blue", STag (TKw (T "blue")))] /\
+  redu_bind m (mk_shape 3 []) =
+    Bound [(T "red", STag (TPos 0)); (T "green", STag (TPos 1)); (T "blue", STag (TPos 2))] /\
+  redu_bind m (mk_shape 1 [T "blue"; T "green"]) =
+    Bound [(T "red", STag (TPos 0)); (T "green", STag (TKw (T "green"))); (T "blue", STag (TKw (T "blue")))] /\
+  redu_bind m (mk_shape 0 [T "blue"]) =
+    Bound [(T "red", SDefault (DNum 255 1)); (T "green", SDefault (DNum 255 1)); (T "blue", STag (TKw (T "blue")))] /\
+  (forall sh, In sh [mk_shape 0 [T "red"; T "green"; T "blue"]; mk_shape 3 []; mk_shape 1 [T "blue"; T "green"]; mk_shape 0 [T "blue"]] ->
+     exists b, py_bind (sig_of m) sh = Some b /\ redu_bind m sh = Bound b).
+Proof.
+  cbv zeta. split; [apply tmem_In; vm_compute; reflexivity|].
+  split; [vm_compute; reflexivity|]. split; [vm_compute; reflexivity|].
+  split; [vm_compute; reflexivity|]. split; [vm_compute; reflexivity|].
+  intros sh Hin. cbn [In] in Hin.
+  destruct Hin as [E|[E|[E|[E|[]]]]]; subst sh; eexists; split; vm_compute; reflexivity.
 Qed.
 
 (* LCD(rs=.., i2c_addr=..) *)
